@@ -152,8 +152,14 @@ pub fn tx_of_record(log: &dyn SegLog, i: usize) -> usize {
 
 /// Class label of a damage (goes into signatures and histograms).
 pub fn class(log: &dyn SegLog, m: &M) -> String {
-    let n = log.ntx();
-    let pos = |t: usize| if t + 1 == n { "last-tx" } else { "non-last-tx" };
+    class_at(log, m, 0, log.ntx())
+}
+
+/// Class label of a damage inside one segment of a longer history: `log` is the segment,
+/// `tx_offset` the number of transactions of the history that precede it, `n` the number of
+/// transactions of the whole history (first / last / non-last are positions in the HISTORY).
+pub fn class_at(log: &dyn SegLog, m: &M, tx_offset: usize, n: usize) -> String {
+    let pos = |t: usize| if t + tx_offset + 1 == n { "last-tx" } else { "non-last-tx" };
     match m {
         M::Flip { .. } => "flip".into(),
         M::Zero { len, .. } => format!("zero{len}"),
@@ -164,7 +170,7 @@ pub fn class(log: &dyn SegLog, m: &M) -> String {
         M::Transplant(i) => format!("transplant-{}", rk(&log.recs()[*i])),
         M::SpliceTx(t) => format!("splice-transaction({})", pos(*t)),
         M::AppendForeignTx(_) => "append-foreign-transaction".into(),
-        M::DeleteTx(t) => format!("delete-transaction({})", if *t == 0 && n > 1 { "first" } else { pos(*t) }),
+        M::DeleteTx(t) => format!("delete-transaction({})", if *t + tx_offset == 0 && n > 1 { "first" } else { pos(*t) }),
         M::Rekind(i) => format!("unknown-kind-{}({})", rk(&log.recs()[*i]), pos(tx_of_record(log, *i))),
         M::AppendUnknownKind => "unknown-kind-record-appended".into(),
     }
